@@ -20,6 +20,9 @@ def replay(d):
 RULE = ("case = random rule set mentioning or not mentioning NUL / high bytes, actions with "
         "yyless/yyunput/yyinput, one table representation x interactive/batch x flavour; "
         "inputs with NULs at read boundaries (1-byte and small reads), token starts/ends, "
-        "before EOF; evaluation = one run co-simulated with the model; non-trivial = every run")
+        "before EOF; -Cfe/-CFe with the 8-bit default left to flex; C++ scanners also through the "
+        "class's own LexerInput() on a std::istream (batch and interactive); evaluation = one "
+        "run co-simulated with the model; non-trivial = every run")
 REQUIRED = {"tables:-Cf": 1, "tables:-CF": 1, "tables:default": 1, "tables:-C": 1,
-            "mode:True": 1, "mode:False": 1, "bits:7": 1, "default_rule": 1, "yyless": 1}
+            "mode:True": 1, "mode:False": 1, "bits:7": 1, "default_rule": 1, "yyless": 1,
+            "full_ecs_default_8bit": 1, "cxx_own_lexerinput:True": 1, "cxx_own_lexerinput:False": 1}
